@@ -11,6 +11,7 @@ import LccModel.Model.LoaderSpec
 import LccModel.Model.DirScan
 import LccModel.Model.ParamSource
 import LccModel.Model.Reload
+import LccModel.Model.PathSpelling
 open Lean LccModel LccModel.Proto LccModel.Loader LccModel.DirScan
 
 def getInt (j : Json) (k : String) : Except String Int := do
@@ -269,7 +270,19 @@ def handle (j : Json) : Except String Json := do
     -- the directory as it is on disk: the scan decides which entries are suite modules (`Model/DirScan.lean`)
     let r ← parseRawDir (← j.getObjVal? "dir")
     let d := scanDir r
-    let a := answer (loadRawDir r) (declDir (stripDir d)) (declDir d) (noDunderDir d) none
+    -- `spelling`: the path string the caller hands to `load_suites_from_directory` (`Model/PathSpelling.lean`): the loader
+    -- pairs modules and companion directories through path STRINGS built from it
+    let sp := (j.getObjValAs? String "spelling").toOption
+    let res := match sp with
+      | some s => LccModel.PathSpelling.loadDirRealAt s d
+      | none => loadRawDir r
+    let a := answer res (declDir (stripDir d)) (declDir d) (noDunderDir d) none
+    let a := match sp with
+      | some s =>
+        let plain := answer (loadRawDir r) (declDir (stripDir d)) (declDir d) (noDunderDir d) none
+        (a.setObjVal! "spelling_ok" (.bool (LccModel.PathSpelling.spellingOk s))).setObjVal! "names_ok"
+          (.bool (LccModel.PathSpelling.namesOk d)) |>.setObjVal! "same_as_unspelled" (.bool (a.compress == plain.compress))
+      | none => a
     pure (a.setObjVal! "scan" (Json.arr (scanJ [] r).toArray))
   | "rawfiles" =>
     let fs ← (← getArrD j "files").mapM parseFileEntry
